@@ -82,6 +82,7 @@ def check_C01(ctx, unit):
         # frame look-ups
         shapes = {}
         aligns = set()
+        minus1_bad = {}
         for name in ("realloc", "free", "deallocate", "get_size"):
             for f in bn.get(name, []):
                 lk = frame_lookups(f)
@@ -90,6 +91,27 @@ def check_C01(ctx, unit):
                 n, inner = lk[0]
                 shape = _cp(f, inner)
                 shapes[name] = shape
+                # the masked operand is (block address) - 1: a large block sits huge_padding behind its frame, and the
+                # static_asserts admit huge_padding == sb_size (one-page superblocks): rounding the address itself down
+                # then lands on the block, not on the frame
+                pids = {p_["d"] for p_ in f.params() if p_["t"].rstrip().endswith("*")}
+
+                def leaf(x, f=f, pids=pids, depth=0):
+                    from .poly import Poly, to_poly
+                    x = std_unwrap(RA.resolve_local(f, std_unwrap(x)))
+                    hops = 0
+                    while x.kind in ("CStyleCastExpr", "CXXStaticCastExpr", "CXXReinterpretCastExpr", "ImplicitCastExpr",
+                                     "CXXFunctionalCastExpr", "ParenExpr") and x.children and hops < 8:
+                        x, hops = std_unwrap(RA.resolve_local(f, std_unwrap(x.children[0]))), hops + 1
+                    if x.kind == "DeclRefExpr" and x.d["d"] in pids:
+                        return Poly.sym("p")
+                    if x.kind == "BinaryOperator" and x.op in ("+", "-", "*"):
+                        return to_poly(x, leaf)
+                    return Poly.sym("?" + canon(x)[:30])
+                from .poly import Poly, to_poly
+                op_ = to_poly(inner.children[0], leaf)
+                if op_ is None or not (op_ == Poly.sym("p") - Poly.const(1)):
+                    minus1_bad[name] = str(op_)
                 k = inner.children[1].strip().cv()
                 if k is not None:
                     aligns.add(((~k) & M64) + 1)
@@ -128,7 +150,10 @@ def check_C01(ctx, unit):
         sb = None
         ok_align = len(aligns) == 1 and calign == aligns
         for name in sorted(shapes):
-            ctx.inst("E.frame-lookup", "%s::%s%s" % (POOL, name, tag), same and ok_align, bn[name][0].loc,
+            ctx.inst("E.frame-lookup", "%s::%s%s" % (POOL, name, tag), same and ok_align and name not in minus1_bad, bn[name][0].loc,
+                     ("the masked operand is %s, not (block address) - 1: a large block that starts exactly on a superblock "
+                      "boundary (huge_padding == sb_size is admitted by the static_asserts) is looked up in itself; " % minus1_bad[name]
+                      if name in minus1_bad else "") +
                      "look-up %s; alignment used by look-ups %s, by the constructors %s" % (shapes[name], sorted(aligns), sorted(calign, key=str)),
                      bn[name][0])
         # carving (all roles are bound structurally, never by local name)
@@ -948,8 +973,8 @@ def check_C03(ctx, unit):
                 ok = ok and bool(po) and bool(up) and f.dominates(po[0].id, up[0].id)
             ctx.inst("Z.poison-order", "%s::allocate%s" % (POOL, tag), ok, f.loc,
                      "small path: poison(link word) then unpoison(object, length) before returning: %s" % ok, f)
-        # the copying fallback of realloc reads the whole usable size of the old block; for a slab block only the requested
-        # prefix is unpoisoned, so the block must be unpoison_expand()ed first (large blocks are unpoisoned in full when built)
+        # the copying fallback of realloc reads the whole usable size of the old block; only the requested prefix is known to
+        # be unpoisoned, so the block must be unpoison_expand()ed first
         from .inline import inline_variant
         byd_ = {g.d["did"]: g for g in fns}
         for f0 in bn.get("realloc", []):
@@ -969,8 +994,10 @@ def check_C03(ctx, unit):
                     return [(kind, True)]
                 if is_policy_call(n, pol, ("poison",)) and n.args and std_unwrap(n.args[0]).kind == "DeclRefExpr" and std_unwrap(n.args[0]).d["d"] == pp:
                     return [(kind, False)]
-                if any(n.id == c.id for c in cps) and kind != "large" and not exp:
-                    bad.append(n.loc)
+                # (a large block is unpoisoned in full when it is built, but an in-place shrink by reallocate_huge_() of an
+                # EARLIER call poisons its tail again: the expand is owed on the large path as well)
+                if any(n.id == c.id for c in cps) and not exp:
+                    bad.append("%s (%s path)" % (n.loc, kind or "either"))
                 return [st]
 
             def rf(cond, truth, st):
@@ -987,9 +1014,9 @@ def check_C03(ctx, unit):
                 return [st]
             flow.run(f, [(None, False)], tr, rf)
             ctx.inst("Z.poison-order", "%s::realloc: copy out of the old block%s" % (POOL, tag), not bad, cps[0].loc,
-                     ("memcpy at %s reads the whole usable size of a slab block whose tail beyond the requested length is still "
+                     ("memcpy at %s reads the whole usable size of a block whose tail beyond the requested length may still be "
                       "poisoned (no unpoison_expand of the old block on that path)" % bad[0]) if bad else
-                     "the old slab block is unpoison_expand()ed before its usable size is copied", f0)
+                     "the old block is unpoison_expand()ed before its usable size is copied, on the slab and on the large path", f0)
         for f in bn.get("free_huge_", []):
             fp = f.params()[0]
             pz = [x for x in pcalls(f, "poison") if arg0(x) == fp["n"]]
@@ -1000,3 +1027,122 @@ def check_C03(ctx, unit):
                         bad.append(n.loc)
             ctx.inst("Z.poison-order", "%s::free_huge_%s" % (POOL, tag), bool(pz) and not bad, f.loc,
                      ("frame header read at %s after it was poisoned" % bad[0]) if bad else "no header access follows poison(frame)", f)
+
+
+# ---- E.bucket-of-slab: the bucket whose lock and tree are used is the bucket of the slab that is touched -----------------
+
+def _res(f, x, depth=0):
+    """Resolve an expression to what it denotes: through once-initialised locals, parameters of folded helpers, helper
+    results and casts."""
+    for _ in range(16):
+        y = std_unwrap(RA.resolve_local(f, std_unwrap(x)))
+        hops = 0
+        while y.kind in ("CStyleCastExpr", "CXXStaticCastExpr", "CXXReinterpretCastExpr", "ImplicitCastExpr", "ParenExpr",
+                         "CXXFunctionalCastExpr") and y.children and hops < 8:
+            y, hops = std_unwrap(y.children[0]), hops + 1
+        if y.id == x.id:
+            break
+        x = y
+    return x
+
+
+def check_bucket_of_slab(ctx, unit, rule="E.bucket-of-slab"):
+    """Each size class has its own mutex, partial tree and head slab; a slab belongs to the class recorded in its header.
+    Wherever a bucket B and a slab S are used together -- S is inserted into / removed from B's tree, becomes B's head, or S's
+    free list and counter are written under B's mutex -- they must be related by construction: B is _bkts[S->index], or S was
+    read out of B (head_slb, partial_tree.first()), or S was just built for the index B was taken from.  Decided per public
+    entry point with the private helpers that receive a bucket folded in, so that it does not matter on which side of a
+    call the bucket is computed."""
+    from .inline import inline_variant
+    ctx.rule(rule, "a bucket's mutex, partial tree and head slab are only combined with a slab of that bucket: the bucket is "
+             "_bkts[slab->index], or the slab was read out of the bucket, or it was just constructed for the bucket's index", 2)
+    for inst in pool_instantiations(unit):
+        fns = pool_fns(unit, inst)
+        tag = inst[len(POOL):]
+        byd = {g.d["did"]: g for g in fns}
+
+        def takes_bucket(g):
+            return any("bucket" in p_["t"] and p_["t"].rstrip().endswith("*") for p_ in g.params())
+        n_inst = 0
+        for f0 in fns:
+            if f0.get("lambda") or takes_bucket(f0) or f0.kind in ("ctor", "dtor"):
+                continue
+            f = f0
+            if any(c.is_call() and c.callee and byd.get(c.callee.get("did")) is not None and takes_bucket(byd[c.callee["did"]])
+                   for c in f0.events()):
+                f = inline_variant(unit, f0, lambda cal: byd.get(cal.get("did")) is not None and takes_bucket(byd[cal["did"]]))
+
+            def bucket_of(x, f=f):
+                """(index node) when x denotes _bkts[index] (as pointer or lvalue), else None; 'B:<canon>' otherwise"""
+                x = _res(f, x)
+                if x.kind == "UnaryOperator" and x.op == "&":
+                    x = _res(f, x.children[0])
+                if x.kind == "ArraySubscriptExpr" and path(x.children[0]) == ("this", "_bkts"):
+                    return x.children[1]
+                return None
+
+            def related(b, s, f=f):
+                sr = _res(f, s)
+                idx = bucket_of(b)
+                # (b) the slab was read out of this bucket
+                if sr.kind == "MemberExpr" and sr.m == "head_slb" and _strip_ids(canon(_res(f, sr.children[0]))) == _strip_ids(canon(_res(f, b))):
+                    return "read from the bucket's head"
+                if sr.is_call() and sr.callee and sr.callee["n"] in ("first", "successor", "get_left", "get_right") and sr.child("obj") is not None:
+                    o = _res(f, sr.child("obj"))
+                    if o.kind == "MemberExpr" and o.m == "partial_tree" and _strip_ids(canon(_res(f, o.children[0]))) == _strip_ids(canon(_res(f, b))):
+                        return "read from the bucket's tree"
+                if idx is None:
+                    return None
+                ir = _res(f, idx)
+                # (a) B == _bkts[S->index]
+                if ir.kind == "MemberExpr" and ir.m == "index" and canon(_res(f, ir.children[0])) == canon(sr):
+                    return "bucket taken from the slab's index"
+                # (c) S = _construct_slab(i), B == _bkts[i]
+                if sr.is_call() and sr.callee and sr.callee["n"] == "_construct_slab" and sr.args and canon(_res(f, sr.args[0])) == canon(ir):
+                    return "slab constructed for the bucket's index"
+                return None
+            pairs = []
+            for n in f.events():
+                if n.kind == "CXXMemberCallExpr" and n.callee and n.callee["n"] in ("insert", "remove") and n.child("obj") is not None and n.args:
+                    o = std_unwrap(n.child("obj"))
+                    if o.kind == "MemberExpr" and o.m == "partial_tree":
+                        pairs.append((n, o.children[0], n.args[0], "partial_tree.%s" % n.callee["n"]))
+                w = write_of(n)
+                if w and w[0] and w[0][-1] == "head_slb" and w[1] is not None and not _is_nullish(w[1]):
+                    l = n.children[0].strip()
+                    if l.kind == "MemberExpr":
+                        pairs.append((n, l.children[0], w[1], "head_slb ="))
+            # slab free list / counter written under a bucket's mutex
+            locks = []
+            for n in f.all_nodes():
+                if n.kind in ("CXXConstructExpr", "CXXTemporaryObjectExpr") and n.callee and "unique_lock" in (n.callee.get("cls") or "") and n.args:
+                    a = std_unwrap(n.args[0])
+                    if a.kind == "MemberExpr" and a.m == "bucket_mutex":
+                        locks.append((n, a.children[0]))
+            if locks:
+                seen_s = {}
+                for n in f.events():
+                    w = write_of(n)
+                    if w and w[0] and w[0][-1] in ("available", "num_reserved") and len(w[0]) >= 2:
+                        l = n.children[0].strip()
+                        if l.kind == "MemberExpr":
+                            seen_s.setdefault(canon(_res(f, l.children[0])), (n, l.children[0]))
+                for (ln, b) in locks:
+                    for key, (wn, s) in seen_s.items():
+                        pairs.append((wn, b, s, "write of the slab's %s under the bucket's mutex" % path(wn.children[0])[-1]))
+            pairs.sort(key=lambda t: (_lockey(t[0].loc), t[3]))
+            for k_, (n, b, s, what) in enumerate(pairs):
+                r = related(b, s)
+                n_inst += 1
+                ctx.inst(rule, "%s::%s%s: #%d %s" % (POOL, f0.name, tag, k_ + 1, what),
+                         r is not None, n.loc,
+                         r if r is not None else ("bucket %s and slab %s are not related by construction: the mutex that is held and the tree "
+                                                  "that is edited may belong to a different size class than the slab" %
+                                                  (_strip_ids(canon(_res(f, b)))[:80], _strip_ids(canon(_res(f, s)))[:80])), f0)
+        if n_inst == 0:
+            raise AnalysisBroken("anchor vanished: no bucket/slab pairing found in %s" % inst)
+
+
+def _is_nullish(v):
+    v = std_unwrap(v)
+    return v.kind in ("CXXNullPtrLiteralExpr", "GNUNullExpr") or (v.cv() == 0)
